@@ -139,6 +139,19 @@ NEEDS = {
  'C17_6': 'payload machines: transitions built by the (destination) / (origin, destination) constructors leave payloadSet uninitialised',
  'C17_7': 'machine copied before any task was appended: recorded success / failure reports are not copied',
  'C18_9': 'full list, one task removed, refill: TaskListT::remove forgets _vacantTail, the next emplace writes _items[255]',
+ 'C12_6': 'second save() into a SerialBuffer that was already used: the write stream constructor no longer clears the buffer, old bits are OR-ed into the new image (non-canonical, wrong state loaded)',
+ 'C14_3': 'N >= 4 states, reenter of state k strictly inside a left half of the split (N=4, k=1): wideReenter tests prong == L_PRONG and dispatches to the right half',
+ 'C15_6': 'state with >= 2 injections and an observable postReact(): the variadic A_::widePostReact runs I1..Ik instead of Ik..I1',
+ 'C20_8': 'BitArrayT with CAPACITY % 8 != 0 and operator&=: the partial last byte is not and-ed',
+ 'C04_9': 'limit reached while guards veto and redirect in the same round: the round counter only advances on accepted rounds, processTransitions never returns',
+ 'C13_8': 'capacities 249..255 bits: contain() computes x + to - 1 in uint8_t, BYTE_COUNT wraps to 0 (same patch as C18_8 / C20_7)',
+ 'C17_8': 'payload plans, machine copied while a payload-carrying task is outstanding: user-provided TaskT copy constructor drops payloadSet, the copy issues changeTo instead of changeWith',
+ 'C10_8': 'clear() of a non-empty plan: clearTasks() stops at _bounds.last, the last task slot leaks; capacity shrinks by one per clear()',
+ 'C01_8': "activation: the initial state's entry guard redirects and the redirect is vetoed with nothing accepted before: the fall-back to state 0 is dropped, a state is entered while activeStateId() is invalid (same patch as C14_2)",
+ 'C02_11': 'a request made from enter()/exit()/reenter() during the transition (through the machine in the context): processRequest() loops and applies it in the same call (same patch as C04_1)',
+ 'C18_10': 'state count / capacity an exact multiple of 8 and BitArrayT::set() (success branch of updatePlan): unguarded _storage[CAPACITY / 8] &= mask reads and writes one byte past the array',
+ 'C16_10': 'one state calls changeTo() twice for the same destination before processing: the second call is dropped as a duplicate and emits no transition record',
+ 'C08_10': 'payload config, plan task without payload (plan.change<>()): the Origin scope moved into the payload branch, the request carries the invalid id as requester',
 }
 def sh(cmd, **kw):
     return subprocess.run(cmd, shell=True, stdout=subprocess.PIPE, stderr=subprocess.STDOUT, text=True, **kw)
